@@ -32,3 +32,41 @@ func VerifSnapshot(c Cache) (listed, keys [][]byte, size uint) {
 
 	return listed, keys, cc.size
 }
+
+// VerifListNode is the intrusive list node type (build tag "verif" only).  The
+// hooks below expose the unexported list primitives of list.go unchanged, so
+// that the pointer-level list model can be compared with the real functions.
+type VerifListNode = listItem
+
+// The six list functions of list.go, re-exported as they are.
+var (
+	VerifListInit   = listInit
+	VerifListFirst  = listFirst
+	VerifListLast   = listLast
+	VerifListLink2  = listLink2
+	VerifListUnlink = listUnlink
+	VerifListAppend = listAppend
+)
+
+// VerifNewItem returns &it.used of a new item with the given key; the node is
+// in its zero state (never linked), as after "it := item{}" in Set.
+func VerifNewItem(key []byte) *VerifListNode {
+	it := &item{key: key}
+
+	return &it.used
+}
+
+// VerifItemKey returns the key of the item that embeds li as its used field.
+// The item is found exactly as the eviction loop of Set finds it: structPtr
+// with the offset of item.used.  li must not be a list sentinel.
+func VerifItemKey(li *VerifListNode) []byte {
+	it := (*item)(structPtr(unsafe.Pointer(li), unsafe.Offsetof(item{}.used)))
+
+	return it.key
+}
+
+// VerifListNext returns li.next without following it.
+func VerifListNext(li *VerifListNode) *VerifListNode { return li.next }
+
+// VerifListPrev returns li.prev without following it.
+func VerifListPrev(li *VerifListNode) *VerifListNode { return li.prev }
